@@ -212,6 +212,13 @@ def env():
     return _env
 
 
+def skey(s) -> str:
+    """Key of a structure INCLUDING dict keys (algebra.struct_repr drops them)."""
+    jax = A.J()['jax']
+    leaves, treedef = jax.tree.flatten(s)
+    return str(treedef) + '|' + ';'.join(f'{tuple(l.shape)}:{l.dtype}' for l in leaves)
+
+
 _typed = {}
 
 
@@ -221,7 +228,7 @@ def typed():
             if isinstance(o, A.Unbuildable):
                 continue
             try:
-                _typed[n] = (G.key(o.in_structure()), G.key(o.out_structure()))
+                _typed[n] = (skey(o.in_structure()), skey(o.out_structure()))
             except Exception:
                 continue
     return _typed
@@ -650,7 +657,9 @@ class Check(PropertyCheck):
         cols = obs.get('mv')
         if cols is not None and obs.get('in_size') == 0:
             cols = []
-        return {'wf': True, 'override': obs.get('override'), 'generic': obs.get('generic'), 'columns': cols}
+        # an operator object assembled through a non-validating constructor that cannot be applied at all is
+        # outside the property's domain: the model must then call it ill-formed
+        return {'wf': obs.get('mv') is not None, 'override': obs.get('override'), 'generic': obs.get('generic'), 'columns': cols}
 
     def search_cases(self):
         """A bounded wider stream for the failing-input search (a thorough-tier sample)."""
